@@ -73,6 +73,18 @@ Definition opt_N_eqb (a b : option N) : bool :=
   | _, _ => false
   end.
 
+(* `impl From<SystemTime> for Timestamp` (src/util.rs): an instant x nanoseconds after 1_000_000 s BEFORE the Unix epoch
+   becomes (seconds, nanoseconds) with nanoseconds in [0, 10^9) and seconds the FLOOR of the signed distance from
+   the epoch - also before 1970 ("(-4, -0.3)" is stored as (-5, +0.7)).  Result: (seconds negative?, |seconds|, nanos). *)
+Definition ts_base_ns : N := 1000000 * 1000000000.
+Definition ts_of (x : N) : bool * N * N :=
+  if N.leb ts_base_ns x then (false, (x - ts_base_ns) / 1000000000, (x - ts_base_ns) mod 1000000000)
+  else
+    let d := ts_base_ns - x in                      (* > 0 nanoseconds before the epoch *)
+    let q := d / 1000000000 in
+    let r := d mod 1000000000 in
+    if N.eqb r 0 then (true, q, 0) else (true, q + 1, 1000000000 - r).
+
 Section Digests.
 Variable D : Type.
 Variable Deqb : D -> D -> bool.
